@@ -47,9 +47,10 @@ class PathError(Exception):
 
 # ------------------------------------------------------------------ values
 class V:
-    __slots__ = ("kind", "term", "py", "name", "rows", "items")
+    __slots__ = ("kind", "term", "py", "name", "rows", "items", "shape")
 
-    def __init__(self, kind, term=None, py=None, name=None, rows=None, items=None):
+    def __init__(self, kind, term=None, py=None, name=None, rows=None, items=None, shape=None):
+        self.shape = shape    # (rows, cols) as Coq nat terms when known (used only to annotate lets)
         self.kind = kind      # none scalar vec mat pts dim cov bool int str dyn tuple self shape
         self.term = term      # Coq text (scalar vec mat dim)
         self.py = py          # python value (bool int str)
@@ -216,6 +217,7 @@ class Frame:
         self.extra_dims = []    # oracle output dimensions (explicit nat parameters)
         self.returned = None
         self.pspec = pspec
+        self.leaf_shape = {}
 
     # -- helpers
     def fresh(self, base):
@@ -231,8 +233,9 @@ class Frame:
         """let-bind matrix/vector/scalar values under (a fresh variant of) the Python name"""
         if v.kind in ("mat", "vec", "scalar") and not v.term.isidentifier():
             nm = self.fresh(pyname)
-            self.lets.append((nm, v.term))
-            v = V(v.kind, nm)
+            ann = " : M %s %s" % v.shape if (v.shape and v.kind != "scalar") else (" : S" if v.kind == "scalar" else "")
+            self.lets.append((nm + ann, v.term))
+            v = V(v.kind, nm, shape=v.shape, items=v.items)
         elif v.kind == "tuple":
             v = V("tuple", items=[self.bind("%s_%d" % (pyname, i), x) for i, x in enumerate(v.items)])
         return v
@@ -244,7 +247,7 @@ class Frame:
             self.used.add(nm)
             self.grams[key] = nm
             self.gram_types[nm] = "M %s %s" % (a.rows, b.rows)
-        return V("mat", self.grams[key])
+        return V("mat", self.grams[key], shape=(a.rows, b.rows))
 
     def gram_diag(self, a):
         key = ("diag", a.name)
@@ -253,7 +256,7 @@ class Frame:
             self.used.add(nm)
             self.grams[key] = nm
             self.gram_types[nm] = "M %s 1" % a.rows
-        return V("vec", self.grams[key])
+        return V("vec", self.grams[key], shape=(a.rows, "1"))
 
     def resolve(self, node):
         """fully qualified name of a callee expression, or None"""
@@ -391,13 +394,15 @@ class Frame:
             base = self.ev(n.value)
             if n.attr == "T":
                 if base.kind == "mat":
-                    return V("mat", app("mtr", base.term))
+                    return V("mat", app("mtr", base.term), shape=(base.shape[1], base.shape[0]) if base.shape else None)
                 raise Unsupported(".T of %r" % base)
             if n.attr == "shape":
                 if base.kind == "pts":
                     return V("shape", items=[V("dim", base.rows), V("dim", None)])
                 if base.kind == "mat" and base.items:
                     return V("shape", items=[V("dim", base.items[0]), V("dim", base.items[1])])
+                if base.kind == "mat" and base.shape:
+                    return V("shape", items=[V("dim", base.shape[0]), V("dim", base.shape[1])])
                 raise Unsupported(".shape of a %s without a declared shape" % base.kind)
             raise Unsupported("attribute .%s" % n.attr)
         if isinstance(n, ast.Subscript):
@@ -408,7 +413,7 @@ class Frame:
                     and isinstance(n.slice.elts[0], ast.Constant) and n.slice.elts[0].value is None \
                     and isinstance(n.slice.elts[1], ast.Slice) and n.slice.elts[1].lower is None \
                     and n.slice.elts[1].upper is None and n.slice.elts[1].step is None:
-                return V("rowvec", base.term)     # v[None, :]
+                return V("rowvec", base.term, shape=base.shape)     # v[None, :]
             raise Unsupported("subscript %s" % ast.dump(n)[:100])
         if isinstance(n, ast.UnaryOp) and isinstance(n.op, ast.Not):
             v = self.ev(n.operand)
@@ -473,7 +478,7 @@ class Frame:
                 v = V("scalar", attr)
             else:
                 self.used.add(attr)
-                v = V("mat", attr)
+                v = V("mat", attr, shape=(sp[1], sp[2]))
             self.self_reads[attr] = v
         return self.self_reads[attr]
 
@@ -512,6 +517,7 @@ class Frame:
         if v.kind == "scalar":
             return ([], v.term, None, False)
         if v.kind in ("vec", "mat"):
+            self.leaf_shape[v.term] = v.shape
             return ([v.term], "t0", v.kind, False)
         raise Unsupported("element-wise operand %r" % v)
 
@@ -527,10 +533,11 @@ class Frame:
             return V("dyn", body)
         if not leaves:
             return V("scalar", body)
+        sh = self.leaf_shape.get(leaves[0]) or (self.leaf_shape.get(leaves[1]) if len(leaves) > 1 else None)
         if len(leaves) == 1:
-            return V(kind, "mmap (fun t0 => %s) %s" % (body, paren(leaves[0])))
+            return V(kind, "mmap (fun t0 => %s) %s" % (body, paren(leaves[0])), shape=sh)
         if len(leaves) == 2:
-            return V(kind, "mmap2 (fun t0 t1 => %s) %s %s" % (body, paren(leaves[0]), paren(leaves[1])))
+            return V(kind, "mmap2 (fun t0 t1 => %s) %s %s" % (body, paren(leaves[0]), paren(leaves[1])), shape=sh)
         raise Unsupported("element-wise expression over %d arrays" % len(leaves))
 
     def binop(self, n):
@@ -546,37 +553,41 @@ class Frame:
         if b.kind == "int" and b.py in lit:
             b = V("scalar", lit[b.py])
         ks = (a.kind, b.kind)
+        sh = a.shape or b.shape
+
+        def const(t):
+            return "mconst %s %s %s" % ((sh[0], sh[1], paren(t)) if sh else ("_", "_", paren(t)))
         if ks == ("scalar", "scalar"):
             return V("scalar", app(SOPS[op], a.term, b.term))
         if a.kind in ("mat", "vec") and b.kind == a.kind:
             if op is ast.Add:
-                return V(a.kind, app("madd", a.term, b.term))
+                return V(a.kind, app("madd", a.term, b.term), shape=sh)
             if op is ast.Sub:
-                return V(a.kind, app("msub", a.term, b.term))
-            return V(a.kind, "mmap2 %s %s %s" % (SOPS[op], paren(a.term), paren(b.term)))
+                return V(a.kind, app("msub", a.term, b.term), shape=sh)
+            return V(a.kind, "mmap2 %s %s %s" % (SOPS[op], paren(a.term), paren(b.term)), shape=sh)
         if a.kind in ("mat", "vec") and b.kind == "scalar":
             if op is ast.Mult:
-                return V(a.kind, app("mscale", b.term, a.term))
+                return V(a.kind, app("mscale", b.term, a.term), shape=sh)
             if op is ast.Add:
-                return V(a.kind, app("madd", a.term, "mconst _ _ " + paren(b.term)))
+                return V(a.kind, app("madd", a.term, const(b.term)), shape=sh)
             if op is ast.Sub:
-                return V(a.kind, app("msub", a.term, "mconst _ _ " + paren(b.term)))
-            return V(a.kind, "mmap (fun t0 => sdiv t0 %s) %s" % (paren(b.term), paren(a.term)))
+                return V(a.kind, app("msub", a.term, const(b.term)), shape=sh)
+            return V(a.kind, "mmap (fun t0 => sdiv t0 %s) %s" % (paren(b.term), paren(a.term)), shape=sh)
         if a.kind == "scalar" and b.kind in ("mat", "vec"):
             if op is ast.Mult:
-                return V(b.kind, app("mscale", a.term, b.term))
+                return V(b.kind, app("mscale", a.term, b.term), shape=sh)
             if op is ast.Add:
-                return V(b.kind, app("madd", "mconst _ _ " + paren(a.term), b.term))
+                return V(b.kind, app("madd", const(a.term), b.term), shape=sh)
             if op is ast.Sub:
-                return V(b.kind, app("msub", "mconst _ _ " + paren(a.term), b.term))
-            return V(b.kind, "mmap (fun t0 => sdiv %s t0) %s" % (paren(a.term), paren(b.term)))
+                return V(b.kind, app("msub", const(a.term), b.term), shape=sh)
+            return V(b.kind, "mmap (fun t0 => sdiv %s t0) %s" % (paren(a.term), paren(b.term)), shape=sh)
         if a.kind == "mat" and b.kind in ("vec", "rowvec") and op in (ast.Mult, ast.Div):
-            return V("mat", "mbcol %s %s %s" % (SOPS[op], paren(a.term), paren(b.term)))
+            return V("mat", "mbcol %s %s %s" % (SOPS[op], paren(a.term), paren(b.term)), shape=a.shape)
         raise Unsupported("%s: %s between %s and %s" % (self.qual, type(n.op).__name__, a.kind, b.kind))
 
     def matmul(self, a, b):
         if a.kind == "mat" and b.kind in ("mat", "vec"):
-            return V(b.kind, app("mmul", a.term, b.term))
+            return V(b.kind, app("mmul", a.term, b.term), shape=(a.shape[0], b.shape[1]) if (a.shape and b.shape) else None)
         if a.kind == "none" or b.kind == "none":
             raise PathError("TypeError", "dot with None")
         raise Unsupported("dot of %s and %s" % (a.kind, b.kind))
@@ -616,7 +627,7 @@ class Frame:
             a = self.ev(args[0])
             if a.kind != "mat":
                 raise Unsupported("cholesky of %r" % a)
-            return V("mat", app("chol", a.term))
+            return V("mat", app("chol", a.term), shape=a.shape)
         if q == "jax.scipy.linalg.solve_triangular" and len(args) == 2 and set(kw) <= {"lower"}:
             lower = False
             if "lower" in kw:
@@ -629,18 +640,18 @@ class Frame:
                 raise PathError("TypeError", "solve_triangular with None")
             if t.kind != "mat" or b.kind not in ("mat", "vec"):
                 raise Unsupported("solve_triangular of %r, %r" % (t, b))
-            return V(b.kind, app("solve_lower" if lower else "solve_upper", t.term, b.term))
+            return V(b.kind, app("solve_lower" if lower else "solve_upper", t.term, b.term), shape=b.shape)
         if q == "jax.numpy.eye" and len(args) == 1 and not kw:
             d = self.ev(args[0])
             if d.kind != "dim" or d.term is None:
                 raise Unsupported("eye of %r" % d)
-            return V("mat", app("meye", d.term))
+            return V("mat", app("meye", d.term), shape=(d.term, d.term))
         if q == "jax.numpy.diag" and len(args) == 1 and not kw:
             a = self.ev(args[0])
             if a.kind == "vec":
-                return V("mat", app("mdiagv", a.term))
+                return V("mat", app("mdiagv", a.term), shape=(a.shape[0], a.shape[0]) if a.shape else None)
             if a.kind == "mat":
-                return V("vec", app("mdiagof", a.term))
+                return V("vec", app("mdiagof", a.term), shape=(a.shape[0], "1") if a.shape else None)
             if a.kind == "none":
                 raise PathError("TypeError", "diag(None)")
             raise Unsupported("diag of %r" % a)
@@ -649,7 +660,8 @@ class Frame:
             a = self.ev(args[0])
             if not (isinstance(ax, ast.Constant) and ax.value in (0, 1)) or a.kind != "mat":
                 raise Unsupported("sum(axis=...) form")
-            return V("vec", app("msum0" if ax.value == 0 else "msum1", a.term))
+            return V("vec", app("msum0" if ax.value == 0 else "msum1", a.term),
+                     shape=((a.shape[1] if ax.value == 0 else a.shape[0]), "1") if a.shape else None)
         if q in ("jax.numpy.where", "jax.numpy.square", "jax.numpy.sqrt"):
             return self.materialize(self.lift(n))
         if q == "jax.numpy.ndim" and len(args) == 1 and not kw:
@@ -673,7 +685,8 @@ class Frame:
                 raise Unsupported("qr of %r" % a)
             k = self.fresh("kq")
             self.extra_dims.append(k)
-            return V("tuple", items=[V("mat", "qr_q %s %s" % (k, paren(a.term))), V("mat", "qr_r %s %s" % (k, paren(a.term)))])
+            return V("tuple", items=[V("mat", "qr_q %s %s" % (k, paren(a.term)), shape=(a.shape[0], k) if a.shape else None),
+                                     V("mat", "qr_r %s %s" % (k, paren(a.term)), shape=(k, a.shape[1]) if a.shape else None)])
         if q == "mellon.decomposition._eigendecomposition" and len(args) == 1 and set(kw) == {"rank"}:
             a = self.ev(args[0])
             r = self.ev(kw["rank"])
@@ -681,7 +694,8 @@ class Frame:
                 raise Unsupported("_eigendecomposition of %r rank %r" % (a, r))
             p = self.fresh("p")
             self.extra_dims.append(p)
-            return V("tuple", items=[V("vec", "eig_vals %s %s" % (p, paren(a.term))), V("mat", "eig_vecs %s %s" % (p, paren(a.term)))])
+            return V("tuple", items=[V("vec", "eig_vals %s %s" % (p, paren(a.term)), shape=(p, "1")),
+                                     V("mat", "eig_vecs %s %s" % (p, paren(a.term)), shape=(a.shape[0], p) if a.shape else None)])
         if q and q.startswith("mellon.") and q in SPECS:
             return self.repo_call(q, n)
         raise Unsupported("%s: call of %s" % (self.qual, q or ast.dump(f)[:60]))
@@ -727,7 +741,28 @@ class Frame:
                 actual.append(v.term)
         self.guards += ["%s: %s" % (d.name, g) for g in d.guards]
         term = app(d.name, *actual) if actual else d.name
-        return V(d.ret_kind, term) if d.ret_kind != "tuple" else self.bind_tuple(d, term)
+        # return shape: substitute the callee's dimension names by the caller's
+        sub, ok = {}, True
+        for (kind, key), (pn, pt) in zip(d.origin, d.params):
+            av = None
+            if kind == "param":
+                av = given[key]
+            elif kind == "gram":
+                a_, b_ = key
+                av = self.gram_diag(given[d.ptsmap[b_]]) if a_ == "diag" else self.gram(given[d.ptsmap[a_]], given[d.ptsmap[b_]])
+            if av is None:
+                continue
+            if pt == "nat" and av.kind == "dim":
+                sub[pn] = av.term
+            elif pt.startswith("M ") and av.shape:
+                _m, r_, c_ = pt.split()
+                sub[r_], sub[c_] = av.shape[0], av.shape[1]
+        shape = None
+        if d.ret_shape:
+            shape = tuple(sub.get(x, x if x.isdigit() else None) for x in d.ret_shape)
+            if None in shape:
+                shape = None
+        return V(d.ret_kind, term, shape=shape)
 
     def bind_tuple(self, d, term):
         raise Unsupported("tuple-valued repository function %s" % d.name)
@@ -847,11 +882,11 @@ class Translator:
                 env[nm0] = V("scalar", nm)
                 params.append(("param", nm0, nm, "S"))
             elif k == "vec":
-                env[nm0] = V("vec", nm)
+                env[nm0] = V("vec", nm, shape=(ps.vec[0], "1"))
                 usedim(ps.vec[0])
                 params.append(("param", nm0, nm, "M %s 1" % ps.vec[0]))
             elif k == "mat":
-                env[nm0] = V("mat", nm, items=ps.mat)
+                env[nm0] = V("mat", nm, items=ps.mat, shape=ps.mat)
                 usedim(ps.mat[0])
                 usedim(ps.mat[1])
                 params.append(("param", nm0, nm, "M %s %s" % ps.mat))
@@ -898,7 +933,7 @@ class Translator:
             occurring |= set(t.split())
         dims = [d for d in dims if d in occurring]
 
-        def emit(result, nm_, kind):
+        def emit(result, nm_, kind, shape=None):
             body = result
             for ln, lt in reversed(needed_lets(fr.lets, result)):
                 body = "let %s := %s in\n  %s" % (ln, lt, body)
@@ -907,6 +942,7 @@ class Translator:
             d.origin = [(o, k_) for (o, k_, _pn, _pt) in used_params]
             d.ptsmap = ptsmap
             d.param_names = [pn for (_o, _k, pn, _pt) in used_params]
+            d.ret_shape = shape
             self.defs.append(d)
             self.meta[nm_] = dict(params=[(pn, pt) for (_o, _k, pn, pt) in used_params], dims=dims, guards=list(fr.guards),
                                   kind=kind, source=src)
@@ -919,7 +955,7 @@ class Translator:
                 if attr in MATRIX_ATTRS and (want is None or attr in want):
                     if v.kind == "none":
                         raise PathError("TypeError", "attribute %s is None" % attr)
-                    out[attr] = emit(v.term, "%s_%s" % (name, attr), v.kind)
+                    out[attr] = emit(v.term, "%s_%s" % (name, attr), v.kind, v.shape)
                 else:
                     info[attr] = v.term if v.term else (v.name or v.kind)
             self.meta[name] = dict(attrs=sorted(fr.attrs), other=info)
@@ -930,7 +966,7 @@ class Translator:
             raise Unsupported("%s: no return on this path" % q)
         if r.kind not in ("mat", "vec", "scalar"):
             raise Unsupported("%s: returns %r" % (q, r))
-        d = emit(r.term, name, r.kind)
+        d = emit(r.term, name, r.kind, r.shape)
         self.by_key[key] = d
         return d
 
@@ -992,8 +1028,8 @@ def needed_lets(lets, result):
     import re
     need, out = set(re.findall(r"[A-Za-z_][A-Za-z_0-9']*", result)), []
     for ln, lt in reversed(lets):
-        if ln in need:
+        if ln.split(" :")[0] in need:
             out.append((ln, lt))
-            need |= set(re.findall(r"[A-Za-z_][A-Za-z_0-9']*", lt))
+            need |= set(re.findall(r"[A-Za-z_][A-Za-z_0-9']*", lt + " " + ln))
     out.reverse()
     return out
